@@ -26,12 +26,13 @@ Definition tcls_eqb (a b : tcls) : bool :=
 Definition cls_in (c : tcls) (l : list tcls) : bool := existsb (tcls_eqb c) l.
 
 Record token := mkTok {
-  t_id : nat; t_cls : tcls; t_based : option nat; t_used : Z; t_max : option Z;
+  t_grant : nat;                       (* index of the grant whose issued_token list holds it *)
+  t_cls : tcls; t_based : option nat; t_used : Z; t_max : option Z;
   t_mints : option (list tcls); t_revoked : bool; t_exp : Z; t_scope : list pystr }.
 
 Record grant := mkGrant {
   g_user : pystr; g_client : pystr; g_revoked : bool; g_exp : Z; g_scope : list pystr;
-  g_areq_scope : list pystr; g_redirect : pystr; g_valid_until : Z; g_tokens : list token }.
+  g_areq_scope : list pystr; g_redirect : pystr; g_valid_until : Z }.
 
 (* a parsed token request waiting to be processed (what Endpoint.parse_request returned) *)
 Inductive err := EInvalidGrant | EInvalidRequest | EInvalidToken | EOther.
@@ -40,7 +41,9 @@ Inductive preq :=
 | PCode (client : pystr) (code : nat) (redirect : option pystr)
 | PRefresh (client : pystr) (tok : nat) (scope : option (list pystr)).
 
-Record st := mkSt { now : Z; grants : list grant; next_id : nat; parsed : list preq }.
+(* Tokens live in one global list in minting order: a token's identifier IS its position.  The
+   issued_token list of grant gi is the sub-list of tokens with t_grant = gi (same order). *)
+Record st := mkSt { now : Z; grants : list grant; toks : list token; parsed : list preq }.
 
 (* static configuration *)
 Record cfg := mkCfg {
@@ -54,7 +57,7 @@ Record cfg := mkCfg {
   c_revoke_refresh_on_issue : bool;
   c_shared_key : bool }.                 (* the opaque token handlers share one key *)
 
-Definition init : st := mkSt 1700000000 [] 0 [].
+Definition init : st := mkSt 1700000000 [] [] [].
 
 (* ---- Item.is_active ---- *)
 Definition max_reached (t : token) : bool :=
@@ -67,66 +70,63 @@ Definition supports_minting (t : token) (c : tcls) : bool :=
   match t_mints t with Some l => cls_in c l | None => false end.
 
 (* ---- looking tokens up ---- *)
-Fixpoint find_in (id : nat) (ts : list token) : option token :=
-  match ts with [] => None | t :: r => if Nat.eqb (t_id t) id then Some t else find_in id r end.
-Fixpoint find_tok_from (i : nat) (id : nat) (gs : list grant) : option (nat * grant * token) :=
-  match gs with
-  | [] => None
-  | g :: r => match find_in id (g_tokens g) with
-              | Some t => Some (i, g, t)
-              | None => find_tok_from (S i) id r
-              end
+Definition find_tok (id : nat) (s : st) : option (grant * token) :=
+  match nth_error (toks s) id with
+  | Some t => match nth_error (grants s) (t_grant t) with Some g => Some (g, t) | None => None end
+  | None => None
   end.
-Definition find_tok (id : nat) (s : st) : option (nat * grant * token) := find_tok_from O id (grants s).
+(* Grant.get_token: only tokens of that grant *)
+Definition find_in (gi : nat) (id : nat) (ts : list token) : option token :=
+  match nth_error ts id with
+  | Some t => if Nat.eqb (t_grant t) gi then Some t else None
+  | None => None
+  end.
 
-Definition upd_tokens (f : token -> token) (g : grant) : grant :=
-  mkGrant (g_user g) (g_client g) (g_revoked g) (g_exp g) (g_scope g) (g_areq_scope g) (g_redirect g)
-          (g_valid_until g) (List.map f (g_tokens g)).
-Definition set_tokens (ts : list token) (g : grant) : grant :=
-  mkGrant (g_user g) (g_client g) (g_revoked g) (g_exp g) (g_scope g) (g_areq_scope g) (g_redirect g)
-          (g_valid_until g) ts.
-Definition on_tok (id : nat) (f : token -> token) (t : token) : token :=
-  if Nat.eqb (t_id t) id then f t else t.
-Definition upd_tok (id : nat) (f : token -> token) (s : st) : st :=
-  mkSt (now s) (List.map (upd_tokens (on_tok id f)) (grants s)) (next_id s) (parsed s).
 Fixpoint upd_nth {A} (i : nat) (f : A -> A) (l : list A) : list A :=
   match l, i with
   | [], _ => []
   | x :: r, O => f x :: r
   | x :: r, S j => x :: upd_nth j f r
   end.
+Definition upd_tok (id : nat) (f : token -> token) (s : st) : st :=
+  mkSt (now s) (grants s) (upd_nth id f (toks s)) (parsed s).
 Definition upd_grant (gi : nat) (f : grant -> grant) (s : st) : st :=
-  mkSt (now s) (upd_nth gi f (grants s)) (next_id s) (parsed s).
+  mkSt (now s) (upd_nth gi f (grants s)) (toks s) (parsed s).
+Definition map_toks (f : token -> token) (s : st) : st :=
+  mkSt (now s) (grants s) (List.map f (toks s)) (parsed s).
 
 Definition add_used (d : Z) (t : token) : token :=
-  mkTok (t_id t) (t_cls t) (t_based t) (t_used t + d) (t_max t) (t_mints t) (t_revoked t) (t_exp t) (t_scope t).
+  mkTok (t_grant t) (t_cls t) (t_based t) (t_used t + d) (t_max t) (t_mints t) (t_revoked t) (t_exp t) (t_scope t).
 Definition revoke_t (t : token) : token :=
-  mkTok (t_id t) (t_cls t) (t_based t) (t_used t) (t_max t) (t_mints t) true (t_exp t) (t_scope t).
-Definition revoke_g (g : grant) : grant :=      (* Grant.revoke() + Grant.revoke_token() *)
-  mkGrant (g_user g) (g_client g) true (g_exp g) (g_scope g) (g_areq_scope g) (g_redirect g)
-          (g_valid_until g) (List.map revoke_t (g_tokens g)).
+  mkTok (t_grant t) (t_cls t) (t_based t) (t_used t) (t_max t) (t_mints t) true (t_exp t) (t_scope t).
+Definition revoke_g (g : grant) : grant :=      (* Grant.revoke() *)
+  mkGrant (g_user g) (g_client g) true (g_exp g) (g_scope g) (g_areq_scope g) (g_redirect g) (g_valid_until g).
+(* _revoke_tree on a grant: Grant.revoke() + Grant.revoke_token() (every issued token) *)
+Definition revoke_grant_at (gi : nat) (s : st) : st :=
+  map_toks (fun t => if Nat.eqb (t_grant t) gi then revoke_t t else t) (upd_grant gi revoke_g s).
 
 (* ---- Grant.find_scope ---- *)
-Fixpoint find_scope (fuel : nat) (g : grant) (based : option nat) : list pystr :=
+Fixpoint find_scope (fuel : nat) (ts : list token) (gi : nat) (gscope : list pystr) (based : option nat) : list pystr :=
   match fuel with
-  | O => g_scope g
+  | O => gscope
   | S f =>
       match based with
-      | None => g_scope g
+      | None => gscope
       | Some b =>
-          match find_in b (g_tokens g) with
-          | None => g_scope g
+          match find_in gi b ts with
+          | None => gscope
           | Some t => match t_scope t with
                       | [] => match t_based t with
-                              | Some b' => find_scope f g (Some b')
-                              | None => g_scope g
+                              | Some b' => find_scope f ts gi gscope (Some b')
+                              | None => gscope
                               end
                       | sc => sc
                       end
           end
       end
   end.
-Definition fscope (g : grant) (based : option nat) : list pystr := find_scope (S (length (g_tokens g))) g based.
+Definition fscope (s : st) (gi : nat) (g : grant) (based : option nat) : list pystr :=
+  find_scope (S (length (toks s))) (toks s) gi (g_scope g) based.
 
 (* ---- Grant.revoke_token(based_on=v, recursive=True): everything derived from v ---- *)
 Fixpoint derived_from (fuel : nat) (ts : list token) (t : token) (v : nat) : bool :=
@@ -135,12 +135,11 @@ Fixpoint derived_from (fuel : nat) (ts : list token) (t : token) (v : nat) : boo
   | S f => match t_based t with
            | None => false
            | Some b => Nat.eqb b v ||
-                       match find_in b ts with Some tb => derived_from f ts tb v | None => false end
+                       match find_in (t_grant t) b ts with Some tb => derived_from f ts tb v | None => false end
            end
   end.
-Definition revoke_derived (v : nat) (g : grant) : grant :=
-  set_tokens (List.map (fun t => if derived_from (S (length (g_tokens g))) (g_tokens g) t v then revoke_t t else t)
-                       (g_tokens g)) g.
+Definition revoke_derived (gi : nat) (v : nat) (s : st) : st :=
+  map_toks (fun t => if Nat.eqb (t_grant t) gi && derived_from (S (length (toks s))) (toks s) t v then revoke_t t else t) s.
 
 (* ---- Grant.mint_token (+ the expires_at set by the caller) ---- *)
 Definition e_mint_refused : exc := Refused 1.      (* MintingNotAllowed *)
@@ -153,7 +152,7 @@ Definition mint (s : st) (gi : nat) (cls : tcls) (based : option nat) (scope : o
       else
         let chk := match based with
                    | None => Ok tt
-                   | Some b => match find_in b (g_tokens g) with
+                   | Some b => match find_in gi b (toks s) with
                                | None => Err KeyError
                                | Some bt => if negb (supports_minting bt cls) then Err e_mint_refused
                                             else if negb (tok_active (now s) bt) then Err e_mint_refused
@@ -161,32 +160,31 @@ Definition mint (s : st) (gi : nat) (cls : tcls) (based : option nat) (scope : o
                                end
                    end in
         _ <- chk ;;
-        let sc := match scope with Some sc => sc | None => match based with Some _ => fscope g based | None => g_scope g end end in
-        let id := next_id s in
-        let t := mkTok id cls based 0 (match cls with Code => Some 1 | _ => mx end)
+        let sc := match scope with Some sc => sc | None => match based with Some _ => fscope s gi g based | None => g_scope g end end in
+        let id := length (toks s) in
+        let t := mkTok gi cls based 0 (match cls with Code => Some 1 | _ => mx end)
                        (match cls, mints with
                         | Code, None => Some [Access; Refresh; IdTok]
                         | Refresh, None => Some [Access; Refresh]
                         | _, m => m end)
                        false (if exp_in =? 0 then 0 else now s + exp_in) sc in
-        let g1 := set_tokens (g_tokens g ++ [t]) g in
-        let g2 := match based with Some b => upd_tokens (on_tok b (add_used 1)) g1 | None => g1 end in
-        Ok (mkSt (now s) (upd_nth gi (fun _ => g2) (grants s)) (S id) (parsed s), id)
+        let ts1 := match based with Some b => upd_nth b (add_used 1) (toks s) | None => toks s end in
+        Ok (mkSt (now s) (grants s) (ts1 ++ [t]) (parsed s), id)
   end.
 
 (* ---- what a presented string resolves to ---- *)
 Inductive tokref := TRef (id : nat) | Garbage.
-Inductive resolved := RTok (gi : nat) (g : grant) (t : token) | RUnknown | RWrongClass | RTooOld | RCrash.
+Inductive resolved := RTok (id : nat) (g : grant) (t : token) | RUnknown | RWrongClass | RTooOld | RCrash.
 (* get_session_info_by_token(value, handler_key=k) *)
 Definition resolve_as (c : cfg) (k : tcls) (r : tokref) (s : st) : resolved :=
   match r with
   | Garbage => RUnknown
   | TRef id => match find_tok id s with
                | None => RUnknown
-               | Some (gi, g, t) =>
+               | Some (g, t) =>
                    match t_cls t with
                    | IdTok => RUnknown                     (* a JWT does not decrypt *)
-                   | cl => if tcls_eqb cl k then RTok gi g t
+                   | cl => if tcls_eqb cl k then RTok id g t
                            else if c_shared_key c then RWrongClass else RUnknown
                    end
                end
@@ -197,7 +195,7 @@ Definition resolve_any (r : tokref) (s : st) : resolved :=
   | Garbage => RUnknown
   | TRef id => match find_tok id s with
                | None => RUnknown
-               | Some (gi, g, t) =>
+               | Some (g, t) =>
                    match t_cls t with
                    | IdTok =>
                        (* IDToken.info: cryptojwt JWT.unpack (skew 15 s) raises VerificationError once
@@ -205,8 +203,8 @@ Definition resolve_any (r : tokref) (s : st) : resolved :=
                           otherwise the payload carries the session id and the token resolves *)
                        if t_exp t + 15 <=? now s then RCrash
                        else if t_exp t <? now s then RTooOld
-                       else RTok gi g t
-                   | _ => RTok gi g t
+                       else RTok id g t
+                   | _ => RTok id g t
                    end
                end
   end.
@@ -245,41 +243,41 @@ Definition redirect_of (client : pystr) : pystr := PS "https://" ++ client ++ PS
 
 Definition do_authorize (c : cfg) (s : st) (u cl : pystr) (sc : list pystr) : st * out :=
   let gsc := match sc with [] => [] | _ => filter_scopes c cl sc end in
-  let g := mkGrant u cl false (now s + c_grant_exp c) gsc sc (redirect_of cl) (now s + c_authn_valid c) [] in
+  let g := mkGrant u cl false (now s + c_grant_exp c) gsc sc (redirect_of cl) (now s + c_authn_valid c) in
   let gi := length (grants s) in
-  let s1 := mkSt (now s) (grants s ++ [g]) (next_id s) (parsed s) in
+  let s1 := mkSt (now s) (grants s ++ [g]) (toks s) (parsed s) in
   match mint s1 gi Code None None (Some 1) (Some (c_code_mints c)) (c_code_exp c) with
   | Ok (s2, id) => (s2, OAuthz id (filter_scopes c cl sc))
   | _ => (s1, OExc)
   end.
 
-Definition push_parsed (s : st) (p : preq) : st := mkSt (now s) (grants s) (next_id s) (parsed s ++ [p]).
+Definition push_parsed (s : st) (p : preq) : st := mkSt (now s) (grants s) (toks s) (parsed s ++ [p]).
 
 Definition do_token_parse (c : cfg) (s : st) (cl : pystr) (r : tokref) (redir : option pystr) : st * out :=
   match resolve_as c Code r s with
   | RUnknown => (push_parsed s (PErr EInvalidGrant), OErr EInvalidGrant)
   | RWrongClass | RTooOld | RCrash => (s, OExc)   (* WrongTokenClass propagates out of parse_request; nothing is stored *)
-  | RTok gi g t =>
+  | RTok id g t =>
       if c_oidc c && negb (t_used t =? 0) then
         (* a used code: invalidate everything minted from it *)
-        let s1 := upd_grant gi (revoke_derived (t_id t)) s in
+        let s1 := revoke_derived (t_grant t) id s in
         (push_parsed s1 (PErr EInvalidGrant), OErr EInvalidGrant)
       else if negb (tok_active (now s) t) then
         let e := if c_oidc c then EInvalidGrant else EInvalidRequest in
         (push_parsed s (PErr e), OErr e)
-      else (push_parsed s (PCode cl (t_id t) redir), OOk)
+      else (push_parsed s (PCode cl id redir), OOk)
   end.
 
 Definition do_refresh_parse (c : cfg) (s : st) (cl : pystr) (r : tokref) (sc : option (list pystr)) : st * out :=
   match resolve_as c Refresh r s with
   | RUnknown => (push_parsed s (PErr EInvalidGrant), OErr EInvalidGrant)
   | RWrongClass | RTooOld | RCrash => (s, OExc)
-  | RTok gi g t =>
+  | RTok id g t =>
       if negb (tok_active (now s) t) then (push_parsed s (PErr EInvalidRequest), OErr EInvalidRequest)
       else match sc with
-           | Some rs => if subset rs (fscope g (t_based t)) then (push_parsed s (PRefresh cl (t_id t) sc), OOk)
+           | Some rs => if subset rs (fscope s (t_grant t) g (t_based t)) then (push_parsed s (PRefresh cl id sc), OOk)
                         else (push_parsed s (PErr EInvalidRequest), OErr EInvalidRequest)
-           | None => (push_parsed s (PRefresh cl (t_id t) sc), OOk)
+           | None => (push_parsed s (PRefresh cl id sc), OOk)
            end
   end.
 
@@ -288,7 +286,8 @@ Definition do_code_process (c : cfg) (s : st) (cl : pystr) (code : nat) (redir :
            (issue_kw : option bool) : st * out :=
   match find_tok code s with
   | None => (s, OExc)
-  | Some (gi, g, t) =>
+  | Some (g, t) =>
+      let gi := t_grant t in
       if negb (str_eqb (g_client g) cl) then (s, OErr EInvalidGrant)
       else match redir with
            | None => (s, OExc)                                   (* req["redirect_uri"] -> KeyError *)
@@ -356,10 +355,11 @@ Definition do_refresh_process (c : cfg) (s : st) (cl : pystr) (tok : nat) (rsc :
            (issue_kw : option bool) : st * out :=
   match find_tok tok s with
   | None => (s, OExc)
-  | Some (gi, g, t) =>
+  | Some (g, t) =>
+      let gi := t_grant t in
       if negb (str_eqb (g_client g) cl) then (s, OErr EInvalidGrant)
       else
-        let base := if c_oidc c then fscope g (t_based t) else fscope g (Some tok) in
+        let base := if c_oidc c then fscope s gi g (t_based t) else fscope s gi g (Some tok) in
         let sc := match rsc with Some x => x | None => base end in
         match mint s gi Access (Some tok) (Some sc) None None (c_access_exp c) with
         | Err (Refused _) => (s, OErr EInvalidRequest)     (* MintingNotAllowed caught by Token.process_request *)
@@ -411,7 +411,7 @@ Definition do_process (c : cfg) (s : st) (idx : nat) (kw : option bool) : st * o
 
 Definition do_userinfo (c : cfg) (s : st) (r : tokref) : st * out :=
   match resolve_as c Access r s with
-  | RTok gi g t =>
+  | RTok id g t =>
       if negb (tok_active (now s) t) then (s, OErr EInvalidToken)
       else if negb (now s <=? g_valid_until g) then (s, OExc)     (* `info` never bound *)
       else (s, OUserinfo)
@@ -420,13 +420,13 @@ Definition do_userinfo (c : cfg) (s : st) (r : tokref) : st * out :=
 
 Definition do_introspect (c : cfg) (s : st) (cl : pystr) (r : tokref) : st * out :=
   match resolve_any r s with
-  | RTok gi g t =>
+  | RTok id g t =>
       if negb (str_eqb cl (g_client g)) then (s, OInactive)      (* audience restriction: resources = [client] *)
       else match t_cls t with
            | Access | Refresh =>
                if tok_active (now s) t then
                  (s, OActive (match t_scope t with
-                              | [] => match t_based t with Some _ => fscope g (t_based t) | None => g_scope g end
+                              | [] => match t_based t with Some _ => fscope s (t_grant t) g (t_based t) | None => g_scope g end
                               | sc => sc end) (g_client g) (t_cls t))
                else (s, OInactive)
            | _ => (s, OInactive)
@@ -437,11 +437,11 @@ Definition do_introspect (c : cfg) (s : st) (cl : pystr) (r : tokref) : st * out
 
 Definition do_revoke_ep (c : cfg) (s : st) (cl : pystr) (r : tokref) : st * out :=
   match resolve_any r s with
-  | RTok gi g t =>
+  | RTok id g t =>
       if negb (str_eqb cl (g_client g)) then (s, OErr EInvalidGrant)
       else match t_cls t with
            | IdTok => (s, OErr EOther)                   (* unsupported_token_type *)
-           | _ => (upd_tok (t_id t) revoke_t s, OOk)
+           | _ => (upd_tok id revoke_t s, OOk)
            end
   | RTooOld | RCrash => (s, OExc)                      (* neither exception is caught by the endpoint *)
   | _ => (s, OOk)
@@ -450,12 +450,18 @@ Definition do_revoke_ep (c : cfg) (s : st) (cl : pystr) (r : tokref) : st * out 
 Definition do_api_revoke (s : st) (id : nat) (recursive : bool) : st * out :=
   match find_tok id s with
   | None => (s, OSkip)
-  | Some (gi, g, t) =>
+  | Some (g, t) =>
       let s1 := upd_tok id revoke_t s in
-      (if recursive then upd_grant gi (revoke_derived id) s1 else s1, OOk)
+      (if recursive then revoke_derived (t_grant t) id s1 else s1, OOk)
   end.
 
 Definition same_branch (g h : grant) : bool := str_eqb (g_user g) (g_user h) && str_eqb (g_client g) (g_client h).
+(* revoke_client_session: the client node and every grant below it (with all their tokens) *)
+Definition in_branch (g : grant) (s : st) (gi : nat) : bool :=
+  match nth_error (grants s) gi with Some h => same_branch g h | None => false end.
+Definition revoke_branch (g : grant) (s : st) : st :=
+  mkSt (now s) (List.map (fun h => if same_branch g h then revoke_g h else h) (grants s))
+       (List.map (fun t => if in_branch g s (t_grant t) then revoke_t t else t) (toks s)) (parsed s).
 
 Definition step (c : cfg) (s : st) (o : op) : st * out :=
   match o with
@@ -468,13 +474,12 @@ Definition step (c : cfg) (s : st) (o : op) : st * out :=
   | RevokeEP cl r => do_revoke_ep c s cl r
   | ApiRevoke id rec => do_api_revoke s id rec
   | RevokeGrant gi => match nth_error (grants s) gi with
-                      | Some _ => (upd_grant gi revoke_g s, OOk)
+                      | Some _ => (revoke_grant_at gi s, OOk)
                       | None => (s, OSkip) end
   | RevokeClient gi => match nth_error (grants s) gi with
-                       | Some g => (mkSt (now s) (List.map (fun h => if same_branch g h then revoke_g h else h) (grants s))
-                                         (next_id s) (parsed s), OOk)
+                       | Some g => (revoke_branch g s, OOk)
                        | None => (s, OSkip) end
-  | Tick d => (mkSt (now s + Z.max 0 d) (grants s) (next_id s) (parsed s), OOk)
+  | Tick d => (mkSt (now s + Z.max 0 d) (grants s) (toks s) (parsed s), OOk)
   end.
 
 Fixpoint run (c : cfg) (s : st) (ops : list op) : st * list out :=
